@@ -50,3 +50,23 @@ def client_reference_compressor(cwb, client_nct):
             state["co"] = None
         return data
     return compress
+
+
+def inflate_message(payload, wbits):
+    """What RFC 7692 section 7.2.2 yields for one message payload on a fresh context: append 00 00 ff ff and inflate; a
+    block with BFINAL set ends a DEFLATE stream and what follows starts a new one (section 7.2.3.4).
+    Returns (bytes or None for a DEFLATE error, whether a stream ended inside the message)."""
+    data = payload + TAIL
+    out = b""
+    ended = False
+    try:
+        while True:
+            d = zlib.decompressobj(-wbits)
+            out += d.decompress(data)
+            if d.unused_data:
+                ended = True
+                data = d.unused_data
+                continue
+            return out, ended
+    except zlib.error:
+        return None, ended
